@@ -10,7 +10,7 @@ from concurrent.futures import ThreadPoolExecutor
 from pathlib import Path
 
 label = sys.argv[1]
-dirs = sorted(Path("/tmp/wt_out").glob("C*/change*"))
+dirs = sorted(d for d in Path("/tmp/wt_out").glob("C*/change*") if d.is_dir() and (d / "verification.json").exists())
 
 
 def recheck(d: Path):
